@@ -25,23 +25,27 @@ Definition exclusive (U : Z) (rules : list rule) (p : point) : Prop :=
 (* ---- the overlay ------------------------------------------------------------------------ *)
 
 (* Up to 64 rules the overlay returns (no index out of bounds), whatever the boxes are. *)
+(* The limit is on the number of rules left after merging rules with equal substitutions and rules
+   with equal regions; merging never adds rules, so "at most 64 rules" is enough. *)
+Theorem merging_never_adds_rules : forall U rules, (length (preflight U rules) <= length rules)%nat.
+Proof. exact preflight_length. Qed.
+Print Assumptions merging_never_adds_rules.
+
 Theorem overlay_total_upto_64 : forall U rules,
-  rules_wf U rules -> (length rules <= 64)%nat -> exists items, overlay_feature_variations U rules = Ok items.
-Proof.
-  intros U rules Hwf Hn. apply (overlay_no_panic U rules Hwf). pose proof (preflight_length U rules). lia.
-Qed.
+  rules_wf U rules -> (length (preflight U rules) <= 64)%nat -> exists items, overlay_feature_variations U rules = Ok items.
+Proof. intros U rules Hwf Hn. exact (overlay_no_panic U rules Hwf Hn). Qed.
 Print Assumptions overlay_total_upto_64.
 
 (* Soundness at EVERY location of the designspace (edges included): a map listed for an output box
    belongs to a rule (after merging equal rules) that fires at every location of the box. *)
 Theorem overlay_sound : forall U rules items,
-  rules_wf U rules -> (length rules <= 64)%nat ->
+  rules_wf U rules -> (length (preflight U rules) <= 64)%nat ->
   overlay_feature_variations U rules = Ok items ->
   forall b maps, In (b, maps) items ->
   forall q, in_dom U q -> in_boxb q b = true ->
   forall s, In s maps -> In s (active_maps (preflight U rules) q).
 Proof.
-  intros U rules items Hwf Hn. apply (ProofsPipeline.overlay_sound U rules Hwf). pose proof (preflight_length U rules). lia.
+  intros U rules items Hwf Hn. exact (ProofsPipeline.overlay_sound U rules Hwf Hn items).
 Qed.
 Print Assumptions overlay_sound.
 
@@ -50,13 +54,10 @@ Print Assumptions overlay_sound.
    rule order; and no box contains the location when no rule fires.  Any number of axes, boxes per
    rule, overlapping / nested / partially overlapping / open-ended / degenerate boxes. *)
 Theorem first_match_is_active : forall U rules p,
-  rules_wf U rules -> (length rules <= 64)%nat -> in_dom U p -> exclusive U rules p ->
+  rules_wf U rules -> (length (preflight U rules) <= 64)%nat -> in_dom U p -> exclusive U rules p ->
   exists items, overlay_feature_variations U rules = Ok items /\
     first_match items p = match active_maps (preflight U rules) p with [] => None | l => Some l end.
-Proof.
-  intros U rules p Hwf Hn Hd Hex. apply (overlay_first_match U rules Hwf); [|exact Hd|exact Hex].
-  pose proof (preflight_length U rules). lia.
-Qed.
+Proof. intros U rules p Hwf Hn Hd Hex. exact (overlay_first_match U rules Hwf Hn p Hd Hex). Qed.
 Print Assumptions first_match_is_active.
 
 (* Merging rules with equal substitutions / equal regions does not change what is substituted at a
@@ -79,14 +80,11 @@ Print Assumptions order_irrelevant_when_compatible.
 
 (* The overlay as a whole against the source rules. *)
 Theorem overlay_applies_source_rules : forall U rules p,
-  rules_wf U rules -> (length rules <= 64)%nat -> in_dom U p -> exclusive U rules p ->
+  rules_wf U rules -> (length (preflight U rules) <= 64)%nat -> in_dom U p -> exclusive U rules p ->
   compatible (active_maps rules p) ->
   exists items, overlay_feature_variations U rules = Ok items /\
     forall g, apply_seq (match first_match items p with Some l => l | None => [] end) g = spec_apply rules p g.
-Proof.
-  intros U rules p Hwf Hn Hd Hex Hc. apply (overlay_correct U rules Hwf); try assumption.
-  pose proof (preflight_length U rules). lia.
-Qed.
+Proof. intros U rules p Hwf Hn Hd Hex Hc. exact (overlay_correct U rules Hwf Hn p Hd Hex Hc). Qed.
 Print Assumptions overlay_applies_source_rules.
 
 (* ---- the compiled table ------------------------------------------------------------------- *)
@@ -97,7 +95,7 @@ Print Assumptions overlay_applies_source_rules.
    boxes with the same ConditionSet; the location is inside every axis' range, and not on a lower and
    an upper edge at once; the rules firing at the location do not interfere. *)
 Theorem font_applies_source_rules : forall env rules p f,
-  rules_wf UQ rules -> (length rules <= 64)%nat ->
+  rules_wf UQ rules -> (length (preflight UQ rules) <= 64)%nat ->
   env_inj env -> no_collision UQ env rules ->
   in_dom UQ p -> in_axes env p -> exclusive UQ rules p ->
   compatible (active_maps rules p) ->
@@ -105,9 +103,23 @@ Theorem font_applies_source_rules : forall env rules p f,
   forall g, font_apply f (qpoint_of env p) g = spec_apply rules p g.
 Proof.
   intros env rules p f Hwf Hn Hinj Hnc Hd Hax Hex Hc Hcomp.
-  apply (font_correct env rules Hwf); try assumption. pose proof (preflight_length UQ rules). lia.
+  exact (font_correct env rules Hwf Hn Hinj Hnc p Hd Hax Hex Hc f Hcomp).
 Qed.
 Print Assumptions font_applies_source_rules.
+
+(* A condition on the SOURCE that excludes ConditionSet collisions: conditions are bounded by the
+   designspace, and none spells out the whole normalized range of its axis (a condition exactly
+   (-1, 1) is harmless: cleanup removes it). *)
+Theorem no_collision_without_full_range_conditions : forall env rules,
+  rules_wf UQ rules -> (length (preflight UQ rules) <= 64)%nat -> env_inj env ->
+  (forall c a r, In c (all_boxes rules) -> In (a, r) c -> (fst r <= UQ /\ - UQ <= snd r)%Z) ->
+  (forall c a r0 ai, In c (all_boxes rules) -> In (a, r0) c -> In (a, ai) env ->
+     r0 <> full_range UQ -> ~ (fst r0 <= ax_minq ai /\ ax_maxq ai <= snd r0)%Z) ->
+  no_collision UQ env rules.
+Proof.
+  intros env rules Hwf Hn Hinj Hb Hc. exact (no_collision_source env rules Hwf Hn Hinj Hb Hc).
+Qed.
+Print Assumptions no_collision_without_full_range_conditions.
 
 (* The hypotheses are satisfiable: two overlapping rules on two axes, one of them with two condition
    sets, a location inside both. *)
@@ -129,8 +141,14 @@ Proof.
   - cbn. lia.
   - intros a1 i1 a2 i2 H1 H2 Hi. cbn in H1, H2.
     destruct H1 as [H1|[H1|[]]], H2 as [H2|[H2|[]]]; inversion H1; inversion H2; subst; cbn in Hi; congruence.
-  - intros items css H1 H2. vm_compute in H1. inversion H1; subst. vm_compute in H2. inversion H2; subst.
-    repeat (constructor; [cbn; intuition discriminate|]). constructor.
+  - (* through the source-level condition *)
+    apply no_collision_without_full_range_conditions.
+    + apply rules_wfb_ok. reflexivity.
+    + cbn. lia.
+    + intros a1 i1 a2 i2 H1 H2 Hi. cbn in H1, H2.
+      destruct H1 as [H1|[H1|[]]], H2 as [H2|[H2|[]]]; inversion H1; inversion H2; subst; cbn in Hi; congruence.
+    + apply boundedb_ok. reflexivity.
+    + apply no_coverb_ok. reflexivity.
   - intros a. unfold ex_p, at2, UQ. destruct (a =? 2)%N, (a =? 3)%N; lia.
   - intros a ai H. cbn in H. destruct H as [H|[H|[]]]; inversion H; subst; cbn; lia.
   - unfold exclusive. apply exclusiveb_ok. reflexivity.
